@@ -10,7 +10,7 @@ import tla
 from core import Outcome
 
 PROP = "X05"
-SITE = {"wrap": "gather_wrap_dims", "renumber": "tt_renumber", "irenumber": "tt_irenumber"}
+SITE = {"memorder": "to_memory_order", "wrap": "gather_wrap_dims", "renumber": "tt_renumber", "irenumber": "tt_irenumber"}
 
 
 def key_obj(k: dict, as_array: bool = False):
@@ -32,6 +32,19 @@ def call(op: str, a: dict) -> dict:
     ttb = bind.ttb
     u = ttb.pyttb_utils
     try:
+        if op == "memorder":
+            dims = tuple(int(x) for x in a["dims"])
+            n = int(np.prod(dims))
+            if a["layout"] == "strided":
+                base = np.arange(2 * n, dtype=float).reshape((2 * dims[0],) + dims[1:])
+                arr = base[::2]
+            else:
+                arr = np.arange(n, dtype=float).reshape(dims, order=a["layout"])
+            before = arr.copy()
+            res = u.to_memory_order(arr, a["order"], copy=bool(a["copy"]))
+            return {"st": "ok", "same_values": bool(res.shape == arr.shape and np.array_equal(res, before)),
+                    "in_order": bool(res.flags["F_CONTIGUOUS" if a["order"] == "F" else "C_CONTIGUOUS"]),
+                    "shares": bool(np.shares_memory(res, arr)), "operand_kept": bool(np.array_equal(arr, before))}
         if op == "wrap":
             r = np.array(a["r"]["v"], dtype=int) if a["r"]["given"] else None
             c = np.array(a["c"]["v"], dtype=int) if a["c"]["given"] else None
@@ -81,6 +94,8 @@ def expected_matches(op, a, exp, got) -> bool:
         return False
     if exp["st"] != "ok":
         return True
+    if op == "memorder":
+        return got["same_values"] and got["in_order"] and got["operand_kept"] and got["shares"] == exp["shares"]
     if op == "wrap":
         return got["r"] == exp["r"] and got["c"] == exp["c"] and got["ints"]
     if op == "renumber":
@@ -105,6 +120,8 @@ def record(stim: dict) -> dict:
 
 def tags_of(tr, k):
     a = tr["ev"][k - 1]["args"]
+    if tr["ev"][k - 1]["op"] == "memorder":
+        return ["layout_" + a["layout"], "to_" + a["order"], "copy" if a["copy"] else "nocopy"]
     if tr["ev"][k - 1]["op"] == "wrap":
         return ["n%d" % a["n"], "cyc_" + a["cyc"], "r" if a["r"]["given"] else "no_r", "c" if a["c"]["given"] else "no_c"]
     return sorted({"key_" + x["k"] for x in a["key"]}) + (["no_entries"] if not a.get("subs", a.get("tsubs")) else [])
@@ -116,7 +133,7 @@ def main(tier: str) -> int:
         return core.replay_file(rp, PROP, "x05", "Plumbing_Trace")
     out = Outcome(PROP, tier)
     r = tla.run_tlc("Plumbing_Gen", "SPECIFICATION Spec\n" + "".join(
-        f"INVARIANT {x}\n" for x in ("WrapIsPartition", "CyclicSameModes", "TransposeSwaps", "RenumberInside", "InverseLaw")),
+        f"INVARIANT {x}\n" for x in ("WrapIsPartition", "CyclicSameModes", "TransposeSwaps", "RenumberInside", "InverseLaw", "MemOrderLaw")),
         timeout=1200)
     out.add_tlc(r)
     behaviours = r.json
@@ -127,7 +144,9 @@ def main(tier: str) -> int:
     out.rule = ("gather_wrap_dims for 1 to 4 modes with every duplicate-free row / column mode list (one side, both sides, "
                 "neither) and the cyclic conventions fc / bc / t; tt_renumber and tt_irenumber on shapes (3), (2,3), (3,1,2) "
                 "with every key over {full slice, integer, index list (also non-monotone), slices with start / stop / step, "
-                "stop past the end} and the entries of the selected region stored ascending, descending, rotated, or none")
+                "stop past the end} and the entries of the selected region stored ascending, descending, rotated, or none; "
+                "to_memory_order on nine shapes (1 to 3 dimensions, with singleton dimensions) x operand layout C / F / strided "
+                "x requested order x copy flag")
     out.exhaustive = True
     out.trusted = ["key_obj() / call() in harness/x05.py", "TLC"]
     return core.finish(out)
